@@ -7,6 +7,8 @@ CONSTANTS
   MaxSpans = @MAXSPANS@
   EndMode = "@ENDMODE@"
   CtxUntil = @CTXUNTIL@
+  NProv = @NPROV@
+  GenMode = "@GENMODE@"
 VIEW View
 ACTION_CONSTRAINT EmitEdge
 INVARIANT Inv
